@@ -2328,9 +2328,8 @@ func (p *Parser) gotStmtPipe(s *Stmt, binCmd bool) *Stmt {
 			p.rune()
 			fpos := p.pos
 			p.next()
-			if p.tok == _LitWord && p.val == "{" {
-				p.checkLang(fpos, LangZsh, "anonymous functions")
-			}
+			// `() body` without a name is only valid in zsh, whatever the body is.
+			p.checkLang(fpos, LangZsh, "anonymous functions")
 			p.funcDecl(s, fpos, false, true)
 			break
 		}
